@@ -19,7 +19,7 @@ func init() {
 			"and the authorization loader applies the same case analysis as the live saver (C06's sibling rule); LOAD-ORDER the constructor calls the loaders in dependency order (server keys, temporary key, GCA key, authorizations, archived weeks - which set the window offset -, reports), each only after the previous one succeeded; " +
 			"MONOTONE-LOAD a loader aborts start-up on a persisted record only for reasons that no later accepted operation can create: a failed verification under the write-once GCA key / the device's key; " +
 			"an abort on 'id not in the device table' is allowed only after the record's id was looked up in the ban set (every deletion from the device table adds the id to the ban set), so reports of a since-banned device are skipped instead of making the restart fail; " +
-			"the persisted encodings round-trip (C15). LOG every writer of a record log (authorizations, archived weeks, reports) appends or creates the file empty during construction; the report loader visits record i = 0,1,... while i < len/80 and, like every loop of the authorization and archive loaders, is left only at its end or by an error that aborts start-up. ROUNDTRIP the decoder of each persisted record type reads exactly what its encoder writes; the rotation rules of C03 (record on disk in the critical section that archives it, failure stops the process, disk before offset advance) are re-run; the constructor starts the rotation (catch-up included) only after the reports were replayed; the id looked up in the ban set while loading is the record's own little-endian ShortID. NOT decided: equality of the complete reloaded state with the pre-restart state as a behavioural claim over histories; live impact rates (not persisted by design). " +
+			"the persisted encodings round-trip (C15). LOG every writer of a record log (authorizations, archived weeks, reports) appends or creates the file empty during construction; the report loader visits record i = 0,1,... while i < len/80 and, like every loop of the authorization and archive loaders, is left only at its end or by an error that aborts start-up. ROUNDTRIP the decoder of each persisted record type reads exactly what its encoder writes; the rotation rules of C03 (record on disk in the critical section that archives it, failure stops the process, disk before offset advance) are re-run; the constructor starts the rotation (catch-up included) only after the reports were replayed; the id looked up in the ban set while loading is the record's own little-endian ShortID. The key-saver rules of C07 (persist-then-set) and the cadence rules of C20 (the start-up catch-up rotates only from now - offset >= 4000 on, wrap-free) are re-run as premises. NOT decided: equality of the complete reloaded state with the pre-restart state as a behavioural claim over histories; live impact rates (not persisted by design). " +
 			"Noted: replay re-appends each replayed, still-live report to the log (the observable state is equal, the file grows by at most one copy per restart).",
 		Assumptions: append([]string{"the durable files are written by this server only (README: data on disk is trusted)"}, baseAssumptions...),
 		Run:         runC04,
@@ -119,6 +119,13 @@ func runC04(c *an.Ctx) {
 		}
 	}
 	c.Check(okKey, "PERSIST", nil, 0, "key-writer", "the GCA key is written to gcaPubKey.dat (ordering decided by C07)", "writer protocols of gcaPubKey.dat")
+	// the registered key the running server honours is the key a restart finds: persist-then-set (rules owned by C07)
+	if ks := findKeySaver(p); ks != nil {
+		keySaverStructure(c, ks)
+	}
+	// "a restart that needs no catch-up rotation changes nothing": the start-up catch-up rotates only when the running
+	// server would long have rotated (threshold above the periodic trigger; rules owned by C20)
+	cadence(c)
 
 	loadOrder(c, ctor, roles)
 	// what is read back is what was written (sibling agreement of the persisted codecs; layouts are C15's)
